@@ -169,7 +169,7 @@ impl Check for PairQuote {
                         rec.class(if sim.is_ok() { "probe_exec_rejected_sim_ok" } else { "probe_both_rejected" });
                         continue;
                     };
-                    let at = swap_attrs(&resp, &pw.pair).ok_or_else(|| Fail::new("swap response lacks attributes"))?;
+                    let at = swap_attrs(&resp, &pw.pair).ok_or_else(|| Fail::unobservable("the swap response carries no parsable return / spread / fee attributes"))?;
                     let sim = sim.map_err(|e| {
                         Fail::new(format!(
                             "step {step}: swap of {amount} of asset {oi} executed (return {}) but the simulation in the same state failed: {e}",
@@ -358,7 +358,7 @@ impl Check for TrioQuote {
                         rec.class(if sim.is_ok() { "probe_exec_rejected_sim_ok" } else { "probe_both_rejected" });
                         continue;
                     };
-                    let at = swap_attrs(&resp, &tw.trio).ok_or_else(|| Fail::new("swap response lacks attributes"))?;
+                    let at = swap_attrs(&resp, &tw.trio).ok_or_else(|| Fail::unobservable("the swap response carries no parsable return / spread / fee attributes"))?;
                     let sim = sim.map_err(|e| {
                         Fail::new(format!(
                             "step {step}: swap {oi}->{ai} of {amount} executed (return {}) but the simulation in the same state failed: {e}",
